@@ -62,10 +62,6 @@ def local(tag):
 # known_findings.json (or commits fixes).
 # --------------------------------------------------------------------------------------------
 PENDING_FINDINGS = {
-    'compiler:warning:unknown-element:attribute@ALIAS':
-        'an alias annotated (attributes k=v) is written as <alias><attribute/>..</alias>; girparser.c has no node '
-        'for an alias (node_stack == NULL in STATE_ALIAS) so start_attribute refuses it and the compiler warns '
-        '"element attribute from state 31 is unknown, ignoring"',
     'compiler:abort:state_switch-assert:record-in-record':
         'a struct member that is itself an (anonymous-typed) struct is written as <record> directly inside <record>; '
         'start_struct calls state_switch(STATE_STRUCT) while already in STATE_STRUCT and the compiler aborts on '
@@ -78,9 +74,6 @@ PENDING_FINDINGS = {
         'embedded callback only in STATE_CLASS_FIELD/STATE_STRUCT_FIELD, so in STATE_UNION_FIELD the compiler warns '
         '"element callback from state 27 is unknown" and then dies with "Caught NULL node, parent=<field>" (or writes a '
         'typelib on which the repository API aborts)',
-    'present:member:introspectable=0':
-        'an enum member annotated (skip) is written with introspectable="0" but start_member never looks at the '
-        'attribute: the value is present in the typelib',
     'present:field:introspectable=0:as-gpointer-placeholder':
         'a field with introspectable="0" is kept in the typelib as a readable gpointer field (deliberate in '
         'start_field, but the property says non-introspectable elements are absent)',
@@ -89,28 +82,17 @@ PENDING_FINDINGS = {
         'its fields appear in the typelib (start_union only links a node into the module when node_stack == NULL)',
     'absent:anonymous-member:record-in-union':
         'an anonymous struct member of a union (<record> inside <union>) is parsed and then dropped from the typelib',
-    'flag:parameter:optional:gir=0:typelib=1:inout+allow-none':
-        'an (inout) (nullable) parameter is written nullable="1" allow-none="1"; start_parameter treats allow-none '
-        'on any out-capable parameter (param->out, true for inout too) as optional: the typelib says optional, the '
-        'GIR does not',
-    'compiler:error:missing-transfer-ownership:return-value-skip':
-        'a return value annotated (skip) whose type has no default transfer (class / plain record pointer) and no '
-        '(transfer) annotation: IntrospectablePass returns early for skipped nodes, the function stays introspectable, '
-        'the writer omits transfer-ownership and the compiler rejects the whole file ("required attribute '
-        '\'transfer-ownership\' missing")',
+    'compiler:fatal:invalid-signal-run-flags:when=must-collect':
+        'a signal the runtime dump reports with when="must-collect" (gdump.c writes that for a signal that has G_SIGNAL_MUST_COLLECT and '
+        'none of RUN_FIRST/RUN_LAST/RUN_CLEANUP; the scanner copies it) gets no run flag from start_glib_signal (since fix b4a410c), and '
+        'the compiler then dies validating its own output: "Invalid typelib for module ...: Invalid signal run flags" '
+        '(gitypelib.c validate_signal_blob demands exactly one of the three)',
     'compiler:error:reference-to-introspectable-0:class:class-parent':
         'a class annotated (skip) keeps introspectable subclasses: <class parent="X"> with X introspectable="0"; '
         'the compiler drops X and fails with "type reference \'X\' not found"',
     'compiler:error:reference-to-introspectable-0:interface:implements':
         'an interface annotated (skip) is still listed in <implements name="X"/> of an introspectable class; the '
         'compiler drops X and fails with "type reference \'X\' not found"',
-    'compiler:fatal:accessor-of-introspectable-0-property':
-        'a property annotated (skip) is written <property introspectable="0">, but the method named in its (getter)/(setter) '
-        'annotation (or annotated (get-property)/(set-property)) keeps glib:get-property / glib:set-property; the compiler drops '
-        'the property and then dies in post-processing with "Unknown property X:p for accessor f" (g_error, no typelib)',
-    'flag:signal:when=must-collect:typelib=run_cleanup':
-        'when="must-collect" (written verbatim from the runtime dump) is not a value start_glib_signal knows; the '
-        'final else branch silently makes it RUN_CLEANUP',
 }
 
 DOC_ONLY = ('function-macro', 'function-inline', 'method-inline', 'docsection')
@@ -1220,7 +1202,8 @@ def cmp_callable(d, path, e, a, is_signal=False):
         cmp_attrs(d, 'parameter', pp, p, x)
 
 
-def cmp_function(d, path, e, a):
+def cmp_function(d, path, e, a, vis_props=None):
+    """vis_props: names of the introspectable properties of the container (None at namespace level)"""
     tag = local(e.tag)
     d.flag('function.c:identifier', path, e.get(qn('c:identifier')), a.get('symbol'))
     d.flag('function.is-method', path, tag == 'method', a.get('f_method'))
@@ -1228,9 +1211,14 @@ def cmp_function(d, path, e, a):
     d.flag('function.throws', path, b(e, 'throws'), a.get('f_throws'))
     d.flag('function.deprecated', path, b(e, 'deprecated'), a.get('deprecated'))
     if tag == 'method':
-        d.flag('function.is-getter', path, e.get(qn('glib:get-property')) is not None and e.get(qn('glib:set-property')) is None,
-               a.get('f_getter'))
-        d.flag('function.is-setter', path, e.get(qn('glib:set-property')) is not None, a.get('f_setter'))
+        # being the getter / setter OF a property is a relation to that property: when the property is marked
+        # non-introspectable it is absent from the typelib, and the relation with it
+        gp, sp = e.get(qn('glib:get-property')), e.get(qn('glib:set-property'))
+        if vis_props is not None:
+            gp = gp if gp in vis_props else None
+            sp = sp if sp in vis_props else None
+        d.flag('function.is-getter', path, gp is not None and sp is None, a.get('f_getter'))
+        d.flag('function.is-setter', path, sp is not None, a.get('f_setter'))
     cmp_callable(d, path, e, a)
 
 
@@ -1238,6 +1226,7 @@ def cmp_methods(d, path, e, a):
     exp = [c for c in kids(e, 'constructor', 'method', 'function')]
     vis = [c for c in exp if not hidden(c)]
     got = {m.get('symbol'): m for m in a.get('methods', [])}
+    vis_props = set(p.get('name') for p in kids(e, 'property') if not hidden(p))
     for c in vis:
         sym = c.get(qn('c:identifier'))
         if sym not in got:
@@ -1246,7 +1235,7 @@ def cmp_methods(d, path, e, a):
             continue
         m = got[sym]
         d.flag('function.name', path + '.' + str(sym), exposed_name(c), m.get('name'))
-        cmp_function(d, '%s.%s' % (path, exposed_name(c)), c, m)
+        cmp_function(d, '%s.%s' % (path, exposed_name(c)), c, m, vis_props)
         cmp_attrs(d, local(c.tag), '%s.%s' % (path, exposed_name(c)), c, m)
     for c in exp:
         if hidden(c) and c.get(qn('c:identifier')) in got:
@@ -1340,13 +1329,12 @@ def cmp_signal(d, path, c, s):
     elif when.lower() == 'cleanup':
         exp = (False, False, True)
     else:
+        # when="must-collect" (gdump.c writes it for a signal with none of the three run flags): a typelib has no
+        # bit for G_SIGNAL_MUST_COLLECT, the same flags = no run phase
         exp = (False, False, False)
     got = (s.get('run_first'), s.get('run_last'), s.get('run_cleanup'))
     if exp != got:
-        if when == 'must-collect' and got == (False, False, True):
-            d.add('flag:signal:when=must-collect:typelib=run_cleanup', '%s: when="must-collect" compiled as RUN_CLEANUP' % path)
-        else:
-            d.add('flag:signal:when=%s:typelib=%s' % (when, got), '%s: when=%r, typelib run_first/last/cleanup=%r' % (path, when, got))
+        d.add('flag:signal:when=%s:typelib=%s' % (when, got), '%s: when=%r, typelib run_first/last/cleanup=%r' % (path, when, got))
     d.flag('signal:no-recurse', path, b(c, 'no-recurse'), s.get('no_recurse'))
     d.flag('signal:detailed', path, b(c, 'detailed'), s.get('detailed'))
     d.flag('signal:action', path, b(c, 'action'), s.get('action'))
@@ -1604,7 +1592,13 @@ def classify_compiler(rc, err, root, state_names):
                 if not hidden(f) and any(hidden(c) for c in kids(f, 'callback')):
                     hidden_cb = True
         symptom = 'null-node' if 'Caught NULL node' in err else 'invalid-typelib'
-        if in_union and 'compiler:warning:unknown-element:callback@UNION_FIELD' in seen:
+        odd_when = root is not None and any((sg.get('when') or 'last').lower() not in ('first', 'last', 'cleanup') and not hidden(sg)
+                                            for sg in root.iter(qn('glib:signal')))
+        if 'Invalid signal run flags' in err and odd_when:
+            whens = sorted(set(sg.get('when') for sg in root.iter(qn('glib:signal'))
+                               if (sg.get('when') or 'last').lower() not in ('first', 'last', 'cleanup')))
+            out.append(('compiler:fatal:invalid-signal-run-flags:when=%s' % '|'.join(whens), 'g-ir-compiler dies: ' + err[-300:]))
+        elif in_union and 'compiler:warning:unknown-element:callback@UNION_FIELD' in seen:
             # one defect, two symptoms: the warning and the fatal error
             out = [o for o in out if o[0] != 'compiler:warning:unknown-element:callback@UNION_FIELD']
             out.append(('compiler:fatal:callback-in-union-field', 'g-ir-compiler dies (%s): %s' % (symptom, err[-300:])))
@@ -1673,15 +1667,17 @@ def atoi(s):
 
 def gir_events(text):
     """the element events GMarkup delivers for a GIR text: [['S', name, hidden] | ['E', name]] with
-    the raw (prefixed) element names; hidden = what introspectable_prelude computes from the attributes"""
+    the raw (prefixed) element names; hidden = what introspectable_prelude computes from the attributes,
+    intro0 = the introspectable attribute alone (the hand-written test of start_member)"""
     from xml.parsers import expat
     evs = []
     p = expat.ParserCreate()
 
     def start(name, attrs):
         intro = attrs.get('introspectable')
-        hidden = (intro is not None and atoi(intro) == 0) or ('shadowed-by' in attrs)
-        evs.append(['S', name, bool(hidden)])
+        intro0 = intro is not None and atoi(intro) == 0
+        hidden = intro0 or ('shadowed-by' in attrs)
+        evs.append(['S', name, bool(hidden), bool(intro0)])
 
     def end(name):
         evs.append(['E', name])
@@ -2238,7 +2234,15 @@ def run(ctx):
         'the vocabulary contract is proved on number-coded grouped tables; that they are the coding of the string tables is '
         'evaluated by the compiled driver on every run (tables_coded)',
         'flags compared are those the repository API exposes; c:type, doc, version, stability and other GIR-only data are not in a typelib',
-        'hypothesis of the contract theorems: no scanner output has fields/records/unions inside <interface> (checked on every GIR)',
+        'hypothesis of the contract theorems: no scanner output has fields/records/unions inside <interface>, nor an '
+        '<instance-parameter> with a transfer-ownership other than none/full (checked on every GIR)',
+        'glib:signal when="must-collect" (written by gdump.c for a signal that runs in none of the three phases): SignalBlob has no '
+        'bit for G_SIGNAL_MUST_COLLECT, so the oracle expects none of run_first / run_last / run_cleanup to be set (at HEAD the '
+        'compiler does not get that far: pending finding compiler:fatal:invalid-signal-run-flags:when=must-collect)',
+        'a method is expected to be flagged getter/setter of a property only when that property is introspectable (present) in the '
+        'same class or interface',
+        'the repository API answers for parameters: allow-none="1" is only the legacy spelling; where nullable/optional are written '
+        'the oracle compares exactly those two',
     ])
 
 
